@@ -87,6 +87,12 @@ BLOCKS = [
     ("ul-item-code-indented", ["- a", "", "      x"]),
     ("p-long", ["aa bb cc dd ee ff gg hh ii jj kk ll mm nn oo pp qq rr ss tt uu vv ww xx yy zz aa bb cc dd ee ff gg"]),
     ("h1-long", ["# H aa bb cc dd ee ff gg hh ii jj kk ll mm nn oo pp qq rr ss tt uu vv ww xx yy zz aa bb cc dd ee ff gg"]),
+    # appended later: legal but unusual fences, and tag-delimited blocks written without blank lines
+    ("code-long-close", ["```py", "x", "````"]),
+    ("code-tilde-long-close", ["~~~", "x", "~~~~~"]),
+    ("code-fence-indented", [" ```", "x", " ```"]),
+    ("tag-list", ["{% t %}", "- a", "- b", "{% /t %}"]),
+    ("tag-table", ["<!-- t -->", "| a |", "|---|", "| b |", "<!-- /t -->"]),
 ]
 NAMES = [n for n, _ in BLOCKS]
 
